@@ -25,6 +25,9 @@ class Contract:
         self.raises = {k: _labelled(v) for k, v in g("raises", {}).items()}
         self.only_raises = g("only_raises", None)
         self.result = g("result", None)
+        # fields of a record result that alias arguments: name -> spec expression over the parameters.
+        # Each entry is also a postcondition `result.<name> is <expr>` proved on the body.
+        self.result_fields = g("result_fields", {})
         self.loops = g("loops", {})
         self.modifies = g("modifies", [])
         self.frame = g("frame", None)            # names of parameters that must not be mutated
@@ -40,7 +43,10 @@ class Contract:
         self.calls = g("calls", None)            # "pure": unknown callables are deterministic partial functions            # hook(ex, frame) run before the body (extra assumptions)
         self.returns_by_case = {k: _labelled(v) for k, v in g("returns_by_case", {}).items()}
         self.raises_by_case = {k: {e: _labelled(c) for e, c in v.items()} for k, v in g("raises_by_case", {}).items()}
+        for fname, expr in self.result_fields.items():
+            self.returns.setdefault("result_field_%s" % fname, "result.%s is (%s)" % (fname, expr))
         self.key = (file, qualname)
+        self.module = getattr(spec, "__module__", None)
 
     def returns_for(self, case_name):
         d = dict(self.returns)
@@ -140,6 +146,26 @@ def lemma(name, props=(), cases=None):
         while lines and not lines[0].lstrip().startswith("def "):
             lines.pop(0)
         LEMMAS.append(Lemma(name, props, "\n".join(lines), cases or {"any": {}}, (fn.__doc__ or "").strip()))
+        LEMMAS[-1].module = fn.__module__
+        return fn
+    return deco
+
+
+class Audit:
+    def __init__(self, name, props, fn, doc):
+        self.name, self.props, self.fn, self.doc = name, list(props), fn, doc
+
+
+AUDITS = []
+
+
+def audit(name, props=()):
+    """A finite syntactic obligation decided on the AST of the current tree (read frames, call-site
+    shapes, table contents): f() -> [(label, holds: bool, detail: str)].  Reported with backend
+    `ast-audit`; it is exact for what it states and states nothing semantic."""
+    def deco(fn):
+        AUDITS.append(Audit(name, props, fn, (fn.__doc__ or "").strip()))
+        AUDITS[-1].module = fn.__module__
         return fn
     return deco
 
